@@ -41,10 +41,10 @@ MECHANISMS = [
 REQUIRED_MONITORS = ['tree_parses', 'tree_equals_model', 'contract:XmlStream.stacks', 'contract:XmlStream.exit', 'index_xml_parses',
                      'index_entries', 'index_rle_expansion', 'index_strings_recovered', 'html_rp66v1_parses', 'html_las_parses',
                      'html_lis_parses', 'svg_parses']
-MIN_NONTRIVIAL = {'quick': 6000, 'thorough': 100000}
+MIN_NONTRIVIAL = {'quick': 5000, 'thorough': 60000}
 TIMEOUT_S = {'quick': 400, 'thorough': 3300}
 NSHARDS = 16
-N_TREES = {'quick': 600, 'thorough': 12000}
+N_TREES = {'quick': 1000, 'thorough': 12000}
 N_RP66 = {'quick': 12, 'thorough': 160}
 N_LAS = {'quick': 8, 'thorough': 120}
 N_LIS = {'quick': 3, 'thorough': 24}
